@@ -42,7 +42,8 @@ Upd(m, e) ==
             [m EXCEPT !.reqs = Append(@, [c |-> e.c, pingI |-> e.pingI, pingT |-> e.pingT, t |-> e.t])]
       [] e.ev = "BSendResp" /\ e.kind = "ConnectRequest" -> [m EXCEPT !.resps = Append(@, [c |-> e.c, t |-> e.t])]
       [] e.ev = "BRecvPing" -> [m EXCEPT !.pings = Append(@, [c |-> e.c, rid |-> e.rid, t |-> e.t])]
-      [] e.ev = "BSendPong" -> [m EXCEPT !.pongs = Append(@, [c |-> e.c, rid |-> e.rid, t |-> e.t])]
+      \* the broker's answer is the pong put into its ordered output stream (BPongQueued); whether and when the client reads it is the client's business
+      [] e.ev = "BPongQueued" -> [m EXCEPT !.pongs = Append(@, [c |-> e.c, rid |-> e.rid, t |-> e.t])]
       [] e.ev = "BSendPing" -> [m EXCEPT !.bpings = Append(@, [c |-> e.c, rid |-> e.rid, t |-> e.t])]
       [] e.ev = "BRecvPong" -> [m EXCEPT !.bpongs = Append(@, [c |-> e.c, rid |-> e.rid, t |-> e.t])]
       [] e.ev = "BLinkDown" -> [m EXCEPT !.downs = Append(@, [c |-> e.c, cause |-> e.cause, t |-> e.t])]
